@@ -1,10 +1,672 @@
 package main
 
-// ProtoCase describes a protocol-handler case (worker subprocess).
+import (
+	"bufio"
+	"bytes"
+	"encoding/base64"
+	"encoding/json"
+	"fmt"
+	"io"
+	"os"
+	"os/exec"
+	"strings"
+	"time"
+
+	"github.com/btcsuite/btcutil/base58"
+
+	"github.com/hyperledger/aries-framework-go/component/kmscrypto/doc/util/fingerprint"
+	"github.com/hyperledger/aries-framework-go/component/models/did"
+	"github.com/hyperledger/aries-framework-go/component/storageutil/mem"
+	"github.com/hyperledger/aries-framework-go/pkg/didcomm/common/service"
+	"github.com/hyperledger/aries-framework-go/pkg/didcomm/protocol/introduce"
+	"github.com/hyperledger/aries-framework-go/pkg/didcomm/protocol/messagepickup"
+	"github.com/hyperledger/aries-framework-go/pkg/didcomm/transport"
+	"github.com/hyperledger/aries-framework-go/pkg/framework/aries"
+	"github.com/hyperledger/aries-framework-go/pkg/framework/context"
+	"github.com/hyperledger/aries-framework-go/pkg/store/connection"
+	kmsapi "github.com/hyperledger/aries-framework-go/spi/kms"
+	vdrapi "github.com/hyperledger/aries-framework-go/spi/vdr"
+
+	"verifharness/hx"
+)
+
+// ProtoCase describes a protocol-handler case: the service-level delivery of one message after a history prefix.
 type ProtoCase struct {
-	Scenario string `json:"scenario"`
+	Proto  string `json:"proto"`  // protocol of the template list
+	Index  int    `json:"index"`  // the template that is mutated; templates before it are the history prefix
+	Path   string `json:"path"`   // closure position
+	Mut    string `json:"mut"`    // closure mutation
+	Conn   bool   `json:"conn"`   // a completed connection with the sender exists
+	Second bool   `json:"second"` // the mutated message is delivered twice
 }
 
-func (r *runner) runProtocols()                       {}
-func (r *runner) replayProto(c Case, kind string) bool { return false }
-func workerMain(name string)                           {}
+// ---------- templates: what the framework's encoders emit for each message type (thread T) ----------
+
+const (
+	myDID    = "did:peer:1zQmbVerifTargetAgent0000000000000000000000000000"
+	theirDID = "did:peer:1zQmbVerifSenderAgent0000000000000000000000000000"
+)
+
+func peerDoc(id string) string {
+	return peerDocKeys(id, "H3C2AVvLMv6gmMNam3uVAjZpfkcJCwDwnZn6z3wXmqPV", "JhNWeSVLMYccCk7iopQW4guaSJTojqpMEELgSLhKwRr",
+		"did:key:z6MkpTHR8VNsBxYAAWHut2Geadd9jSwuBV8xRoAnwWsdvktH")
+}
+
+func peerDocKeys(id, ed58, x58, edDidKey string) string {
+	return `{"@context":["https://www.w3.org/ns/did/v1"],"id":"` + id + `","verificationMethod":[{"id":"` + id +
+		`#key-1","type":"Ed25519VerificationKey2018","controller":"` + id +
+		`","publicKeyBase58":"` + ed58 + `"}],"authentication":["` + id + `#key-1"],` +
+		`"keyAgreement":[{"id":"` + id + `#key-2","type":"X25519KeyAgreementKey2019","controller":"` + id +
+		`","publicKeyBase58":"` + x58 + `"}],"service":[{"id":"` + id +
+		`#didcomm","type":"did-communication","priority":0,"recipientKeys":["` + edDidKey + `"],` +
+		`"serviceEndpoint":"http://127.0.0.1:1/"}]}`
+}
+
+// realDoc is a DID document whose keys live in the target's KMS (so that the agent can pack for / as that DID).
+func realDoc(ctx *context.Provider, id string) string {
+	_, edPub, err := ctx.KMS().CreateAndExportPubKeyBytes(kmsapi.ED25519Type)
+	must(err)
+
+	_, xPub, err := ctx.KMS().CreateAndExportPubKeyBytes(kmsapi.X25519ECDHKWType)
+	must(err)
+
+	var xk struct {
+		X []byte `json:"X"`
+	}
+
+	_ = json.Unmarshal(xPub, &xk)
+
+	dk, _ := fingerprint.CreateDIDKey(edPub)
+
+	return peerDocKeys(id, base58.Encode(edPub), base58.Encode(xk.X), dk)
+}
+
+func templates() map[string][]string {
+	doc64 := base64.StdEncoding.EncodeToString([]byte(peerDoc(theirDID)))
+	att := `{"@id":"a1","mime-type":"application/json","data":{"base64":"` + doc64 + `"}}`
+	thread := `"~thread":{"thid":"T","pthid":"P"}`
+	cred := `{"@id":"c1","mime-type":"application/ld+json","data":{"json":` + strings.ReplaceAll(vcSimple, "\n", "") + `}}`
+
+	return map[string][]string{
+		"didexchange": {
+			`{"@type":"https://didcomm.org/didexchange/1.0/request","@id":"T","label":"bob","did":"` + theirDID + `","did_doc~attach":` + att + `,"~thread":{"pthid":"P"}}`,
+			`{"@type":"https://didcomm.org/didexchange/1.0/response","@id":"r2","did":"` + theirDID + `","did_doc~attach":` + att + `,` + thread + `}`,
+			`{"@type":"https://didcomm.org/didexchange/1.0/complete","@id":"r3",` + thread + `}`,
+			`{"@type":"https://didcomm.org/didexchange/1.0/invitation","@id":"P","label":"bob","recipientKeys":["did:key:z6MkpTHR8VNsBxYAAWHut2Geadd9jSwuBV8xRoAnwWsdvktH"],"serviceEndpoint":"http://127.0.0.1:1/","routingKeys":[]}`,
+			`{"@type":"https://didcomm.org/didexchange/1.0/ack","@id":"r4","status":"OK",` + thread + `}`,
+		},
+		"legacyconnection": {
+			`{"@type":"https://didcomm.org/connections/1.0/request","@id":"T","label":"bob","connection":{"DID":"` + theirDID + `","DIDDoc":` + peerDoc(theirDID) + `},"~thread":{"pthid":"P"}}`,
+			`{"@type":"https://didcomm.org/connections/1.0/response","@id":"r2","connection~sig":{"@type":"https://didcomm.org/signature/1.0/ed25519Sha512_single","signature":"AAAA","sig_data":"AAAAAAAAAAB7fQ==","signer":"H3C2AVvLMv6gmMNam3uVAjZpfkcJCwDwnZn6z3wXmqPV"},` + thread + `}`,
+			`{"@type":"https://didcomm.org/notification/1.0/ack","@id":"r3","status":"OK",` + thread + `}`,
+			`{"@type":"https://didcomm.org/connections/1.0/invitation","@id":"P","label":"bob","recipientKeys":["H3C2AVvLMv6gmMNam3uVAjZpfkcJCwDwnZn6z3wXmqPV"],"serviceEndpoint":"http://127.0.0.1:1/","did":""}`,
+		},
+		"issuecredential": {
+			`{"@type":"https://didcomm.org/issue-credential/2.0/propose-credential","@id":"T","comment":"c","credential_proposal":{"@type":"https://didcomm.org/issue-credential/2.0/credential-preview","attributes":[{"name":"n","mime-type":"text/plain","value":"v"}]},"formats":[{"attach_id":"c1","format":"aries/ld-proof-vc@v1.0"}],"filters~attach":[` + cred + `]}`,
+			`{"@type":"https://didcomm.org/issue-credential/2.0/offer-credential","@id":"o1","comment":"c","credential_preview":{"@type":"https://didcomm.org/issue-credential/2.0/credential-preview","attributes":[{"name":"n","value":"v"}]},"formats":[{"attach_id":"c1","format":"aries/ld-proof-vc@v1.0"}],"offers~attach":[` + cred + `],` + thread + `}`,
+			`{"@type":"https://didcomm.org/issue-credential/2.0/request-credential","@id":"o2","comment":"c","formats":[{"attach_id":"c1","format":"aries/ld-proof-vc@v1.0"}],"requests~attach":[` + cred + `],` + thread + `}`,
+			`{"@type":"https://didcomm.org/issue-credential/2.0/issue-credential","@id":"o3","comment":"c","formats":[{"attach_id":"c1","format":"aries/ld-proof-vc@v1.0"}],"credentials~attach":[` + cred + `],` + thread + `,"~please_ack":{}}`,
+			`{"@type":"https://didcomm.org/issue-credential/2.0/ack","@id":"o4","status":"OK",` + thread + `}`,
+			`{"@type":"https://didcomm.org/issue-credential/2.0/problem-report","@id":"o5","description":{"code":"rejected","en":"no"},` + thread + `}`,
+			`{"@type":"https://didcomm.org/issue-credential/3.0/offer-credential","id":"T3","type":"https://didcomm.org/issue-credential/3.0/offer-credential","body":{"goal_code":"g","comment":"c","credential_preview":{"type":"https://didcomm.org/issue-credential/3.0/credential-preview","body":{"attributes":[{"name":"n","value":"v"}]}}},"attachments":[{"id":"c1","media_type":"application/json","format":"aries/ld-proof-vc@v1.0","data":{"json":{}}}]}`,
+		},
+		"presentproof": {
+			`{"@type":"https://didcomm.org/present-proof/2.0/propose-presentation","@id":"T","comment":"c","formats":[{"attach_id":"c1","format":"dif/presentation-exchange/definitions@v1.0"}],"proposals~attach":[` + cred + `]}`,
+			`{"@type":"https://didcomm.org/present-proof/2.0/request-presentation","@id":"p1","comment":"c","will_confirm":true,"formats":[{"attach_id":"c1","format":"dif/presentation-exchange/definitions@v1.0"}],"request_presentations~attach":[{"@id":"c1","mime-type":"application/json","data":{"json":{"presentation_definition":` + strings.ReplaceAll(pdJSON, "\n", "") + `}}}],` + thread + `}`,
+			`{"@type":"https://didcomm.org/present-proof/2.0/presentation","@id":"p2","comment":"c","formats":[{"attach_id":"c1","format":"dif/presentation-exchange/submission@v1.0"}],"presentations~attach":[` + cred + `],` + thread + `}`,
+			`{"@type":"https://didcomm.org/present-proof/2.0/ack","@id":"p3","status":"OK",` + thread + `}`,
+			`{"@type":"https://didcomm.org/present-proof/2.0/problem-report","@id":"p4","description":{"code":"rejected","en":"no"},` + thread + `}`,
+			`{"type":"https://didcomm.org/present-proof/3.0/request-presentation","id":"T3","body":{"goal_code":"g","will_confirm":true},"attachments":[{"id":"c1","media_type":"application/json","format":"dif/presentation-exchange/definitions@v1.0","data":{"json":{}}}]}`,
+		},
+		"introduce": {
+			`{"@type":"https://didcomm.org/introduce/1.0/request","@id":"T","please_introduce_to":{"name":"carol","description":"d","expected":true,"img~attach":{"data":{"base64":"AAAA"}}},"nwise":false,"~timing":{"expires_time":"2030-01-01T00:00:00Z"}}`,
+			`{"@type":"https://didcomm.org/introduce/1.0/proposal","@id":"i1","to":{"name":"carol","description":"d","expected":true},"nwise":false,` + thread + `}`,
+			`{"@type":"https://didcomm.org/introduce/1.0/response","@id":"i2","approve":true,"oob-message":{"@type":"https://didcomm.org/out-of-band/1.0/invitation","@id":"oob1","label":"carol","services":["did:example:carol"],"handshake_protocols":["https://didcomm.org/didexchange/1.0"]},` + thread + `}`,
+			`{"@type":"https://didcomm.org/introduce/1.0/ack","@id":"i3","status":"OK",` + thread + `}`,
+			`{"@type":"https://didcomm.org/introduce/1.0/problem-report","@id":"i4","description":{"code":"rejected","en":"no"},` + thread + `}`,
+		},
+		"mediator": {
+			`{"@type":"https://didcomm.org/coordinatemediation/1.0/mediate-request","@id":"T","~timing":{}}`,
+			`{"@type":"https://didcomm.org/coordinatemediation/1.0/keylist-update","@id":"k1","updates":[{"recipient_key":"did:key:z6MkpTHR8VNsBxYAAWHut2Geadd9jSwuBV8xRoAnwWsdvktH","action":"add"}]}`,
+			`{"@type":"https://didcomm.org/coordinatemediation/1.0/mediate-grant","@id":"k2","endpoint":"http://127.0.0.1:1/","routing_keys":["did:key:z6MkpTHR8VNsBxYAAWHut2Geadd9jSwuBV8xRoAnwWsdvktH"],` + thread + `}`,
+			`{"@type":"https://didcomm.org/coordinatemediation/1.0/keylist-update-response","@id":"k3","updated":[{"recipient_key":"did:key:z6MkpTHR8VNsBxYAAWHut2Geadd9jSwuBV8xRoAnwWsdvktH","action":"add","result":"success"}],` + thread + `}`,
+			`{"@type":"https://didcomm.org/routing/1.0/forward","@id":"f1","to":"did:key:z6MkpTHR8VNsBxYAAWHut2Geadd9jSwuBV8xRoAnwWsdvktH","msg":{"protected":"e30","iv":"AAAA","ciphertext":"AAAA","tag":"AAAA"}}`,
+			`{"type":"https://didcomm.org/routing/2.0/forward","id":"f2","body":{"next":"did:key:z6MkpTHR8VNsBxYAAWHut2Geadd9jSwuBV8xRoAnwWsdvktH"},"to":["did:example:m"],"attachments":[{"id":"a","data":{"json":{"protected":"e30"}}}]}`,
+		},
+		"messagepickup": {
+			`{"@type":"https://didcomm.org/messagepickup/1.0/status-request","@id":"T",` + thread + `}`,
+			`{"@type":"https://didcomm.org/messagepickup/1.0/batch-pickup","@id":"m1","batch_size":1,` + thread + `}`,
+			`{"@type":"https://didcomm.org/messagepickup/1.0/status","@id":"m2","message_count":1,"duration_waited":1,"last_added_time":"2020-01-01T00:00:00Z","last_delivered_time":"2020-01-01T00:00:00Z","last_removed_time":"2020-01-01T00:00:00Z","total_size":1,` + thread + `}`,
+			`{"@type":"https://didcomm.org/messagepickup/1.0/batch","@id":"m3","messages~attach":[{"id":"x","message":{"protected":"e30"}}],` + thread + `}`,
+			`{"@type":"https://didcomm.org/messagepickup/1.0/noop","@id":"m4","~timing":{}}`,
+		},
+		"outofband": {
+			`{"@type":"https://didcomm.org/out-of-band/1.0/invitation","@id":"T","label":"bob","goal":"g","goal_code":"gc","services":[{"id":"s1","type":"did-communication","recipientKeys":["did:key:z6MkpTHR8VNsBxYAAWHut2Geadd9jSwuBV8xRoAnwWsdvktH"],"serviceEndpoint":"http://127.0.0.1:1/"},"` + theirDID + `"],"accept":["didcomm/aip2;env=rfc19"],"handshake_protocols":["https://didcomm.org/didexchange/1.0"],"requests~attach":[` + att + `]}`,
+			`{"@type":"https://didcomm.org/out-of-band/1.0/handshake-reuse","@id":"h1","~thread":{"thid":"h1","pthid":"T"}}`,
+			`{"@type":"https://didcomm.org/out-of-band/1.0/handshake-reuse-accepted","@id":"h2","~thread":{"thid":"h1","pthid":"T"}}`,
+			`{"type":"https://didcomm.org/out-of-band/2.0/invitation","id":"T2","from":"` + theirDID + `","label":"bob","body":{"goal":"g","goal_code":"gc","accept":["didcomm/v2"]},"attachments":[{"id":"a","media_type":"application/json","data":{"json":{"type":"https://didcomm.org/present-proof/3.0/request-presentation","id":"x","body":{}}}}]}`,
+		},
+	}
+}
+
+var protoOrder = []string{"didexchange", "legacyconnection", "issuecredential", "presentproof", "introduce", "mediator",
+	"messagepickup", "outofband"}
+
+// ---------- worker ----------
+
+type workReq struct {
+	Op   string          `json:"op"` // msg | flush
+	ID   int             `json:"id"`
+	Msg  json.RawMessage `json:"msg"`
+	Conn bool            `json:"conn"`
+	Wait int             `json:"wait_ms"`
+}
+
+type nullTransport struct{}
+
+func (nullTransport) Start(transport.Provider) error { return nil }
+func (nullTransport) Send([]byte, *service.Destination) (string, error) {
+	return "", nil
+}
+func (nullTransport) AcceptRecipient([]string) bool { return true }
+func (nullTransport) Accept(string) bool            { return true }
+
+type target struct {
+	ctx  *context.Provider
+	svcs []svc
+}
+
+type svc interface {
+	HandleInbound(msg service.DIDCommMsg, ctx service.DIDCommContext) (string, error)
+	Accept(msgType string) bool
+	Name() string
+}
+
+func newTarget() *target {
+	fw, err := aries.New(aries.WithStoreProvider(mem.NewProvider()), aries.WithProtocolStateStoreProvider(mem.NewProvider()),
+		aries.WithOutboundTransports(nullTransport{}))
+	must(err)
+
+	ctx, err := fw.Context()
+	must(err)
+
+	t := &target{ctx: ctx}
+
+	for _, s := range ctx.AllServices() {
+		t.svcs = append(t.svcs, s)
+
+		if ev, ok := s.(service.Event); ok {
+			ch := make(chan service.DIDCommAction, 64)
+			if ev.RegisterActionEvent(ch) == nil {
+				go autoContinue(s.Name(), ch)
+			}
+		}
+	}
+
+	// a completed connection with the sender + both DID documents
+	for _, id := range []string{myDID, theirDID} {
+		d, e := did.ParseDocument([]byte(realDoc(ctx, id)))
+		must(e)
+
+		_, e = ctx.VDRegistry().Create("peer", d, vdrapi.WithOption("store", true))
+		must(e)
+	}
+
+	rec, err := connection.NewRecorder(ctx)
+	must(err)
+
+	must(rec.SaveConnectionRecord(&connection.Record{ConnectionID: "conn1", State: "completed", ThreadID: "Tconn",
+		TheirDID: theirDID, MyDID: myDID, Namespace: "my", TheirLabel: "bob",
+		RecipientKeys: []string{"did:key:z6MkpTHR8VNsBxYAAWHut2Geadd9jSwuBV8xRoAnwWsdvktH"}}))
+
+	// an inbox for the sender at the message pickup service
+	for _, s := range ctx.AllServices() {
+		if mp, ok := s.(*messagepickup.Service); ok {
+			_ = mp.AddMessage([]byte(`{"protected":"e30"}`), theirDID)
+			_ = mp.AddMessage([]byte(`{"protected":"e30"}`), theirDID)
+		}
+	}
+
+	return t
+}
+
+// autoContinue approves every action the way an application would (introduce: with a recipient).
+func autoContinue(name string, ch chan service.DIDCommAction) {
+	for a := range ch {
+		switch {
+		case name == introduce.Introduce && a.Message.Type() == introduce.RequestMsgType:
+			a.Continue(introduce.WithRecipients(&introduce.To{Name: "carol"}, &introduce.Recipient{
+				To: &introduce.To{Name: "dave"}, MyDID: myDID, TheirDID: theirDID}))
+		default:
+			a.Continue(nil)
+		}
+	}
+}
+
+func (t *target) deliver(raw []byte, conn bool) {
+	msg, err := service.ParseDIDCommMsgMap(raw)
+	if err != nil {
+		return
+	}
+
+	dctx := service.EmptyDIDCommContext()
+	if conn {
+		dctx = service.NewDIDCommContext(myDID, theirDID, nil)
+	}
+
+	for _, s := range t.svcs {
+		if s.Accept(msg.Type()) {
+			_, _ = s.HandleInbound(msg.Clone(), dctx)
+		}
+	}
+}
+
+func workerMain(_ string) {
+	t := newTarget()
+
+	rd := bufio.NewReaderSize(os.Stdin, 1<<20)
+	out := bufio.NewWriter(os.Stdout)
+
+	for {
+		line, err := rd.ReadBytes('\n')
+		if len(line) > 0 {
+			var req workReq
+			if json.Unmarshal(line, &req) == nil {
+				switch req.Op {
+				case "msg":
+					t.deliver(req.Msg, req.Conn)
+
+					if req.Wait > 0 {
+						time.Sleep(time.Duration(req.Wait) * time.Millisecond)
+					}
+
+					fmt.Fprintf(out, "ok %d\n", req.ID)
+				case "flush":
+					time.Sleep(time.Duration(req.Wait) * time.Millisecond)
+					fmt.Fprintf(out, "flushed\n")
+				}
+
+				out.Flush()
+			}
+		}
+
+		if err != nil {
+			return
+		}
+	}
+}
+
+// ---------- parent side ----------
+
+type protoItem struct {
+	pc  ProtoCase
+	seq [][]byte // messages to deliver: prefix + the mutated message (+ once more)
+}
+
+type batchResult struct {
+	crashed bool
+	timeout bool
+	stderr  string
+	lastOK  int
+}
+
+func runBatch(items []protoItem, quiesce int) batchResult {
+	cmd := exec.Command(os.Args[0], "-worker", "proto") //nolint:gosec
+	cmd.Env = append(os.Environ(), "GOTRACEBACK=all")
+
+	stdin, err := cmd.StdinPipe()
+	must(err)
+
+	stdout, err := cmd.StdoutPipe()
+	must(err)
+
+	var stderr bytes.Buffer
+	cmd.Stderr = &stderr
+
+	must(cmd.Start())
+
+	done := make(chan batchResult, 1)
+
+	go func() {
+		res := batchResult{lastOK: -1}
+		rd := bufio.NewReader(stdout)
+
+		for {
+			line, e := rd.ReadString('\n')
+			if strings.HasPrefix(line, "ok ") {
+				fmt.Sscanf(line, "ok %d", &res.lastOK) //nolint:errcheck
+			}
+
+			if strings.HasPrefix(line, "flushed") {
+				done <- res
+				return
+			}
+
+			if e != nil {
+				res.crashed = true
+				done <- res
+
+				return
+			}
+		}
+	}()
+
+	go func() {
+		w := bufio.NewWriter(stdin)
+
+		for i, it := range items {
+			for k, m := range it.seq {
+				wait := 2
+				if k == len(it.seq)-1 {
+					wait = 0
+				}
+
+				b, _ := json.Marshal(workReq{Op: "msg", ID: i, Msg: m, Conn: it.pc.Conn, Wait: wait}) //nolint:errcheck
+				w.Write(b)                                                                           //nolint:errcheck
+				w.WriteByte('\n')                                                                    //nolint:errcheck
+			}
+		}
+
+		b, _ := json.Marshal(workReq{Op: "flush", Wait: quiesce}) //nolint:errcheck
+		w.Write(b)                                                //nolint:errcheck
+		w.WriteByte('\n')                                         //nolint:errcheck
+		w.Flush()                                                 //nolint:errcheck
+	}()
+
+	limit := hangLimit + time.Duration(len(items))*200*time.Millisecond
+
+	var res batchResult
+
+	select {
+	case res = <-done:
+	case <-time.After(limit):
+		res = batchResult{timeout: true, lastOK: -1}
+	}
+
+	stdin.Close()          //nolint:errcheck
+	cmd.Process.Kill()     //nolint:errcheck
+	cmd.Wait()             //nolint:errcheck
+	io.Copy(io.Discard, stdout) //nolint:errcheck
+
+	res.stderr = stderr.String()
+	if res.crashed && !strings.Contains(res.stderr, "panic") && !strings.Contains(res.stderr, "fatal error") {
+		// the worker ended without a Go panic trace: not an implementation crash
+		res.stderr = "worker ended unexpectedly: " + res.stderr
+	}
+
+	return res
+}
+
+func workerPanicSite(stderr string) (string, string) {
+	msg := ""
+
+	for _, l := range strings.Split(stderr, "\n") {
+		if strings.HasPrefix(l, "panic: ") || strings.HasPrefix(l, "fatal error: ") {
+			msg = l
+			break
+		}
+	}
+
+	// first framework frame after the panic line
+	idx := strings.Index(stderr, msg)
+	site := ""
+
+	for _, l := range strings.Split(stderr[idx:], "\n") {
+		if strings.HasPrefix(l, "github.com/hyperledger/aries-framework-go/") {
+			i := strings.LastIndex(l, "(")
+			if i > 0 {
+				site = strings.TrimPrefix(l[:i], "github.com/hyperledger/aries-framework-go/")
+				break
+			}
+		}
+	}
+
+	return msg, site
+}
+
+func (r *runner) protoItems() []protoItem {
+	tpls := templates()
+
+	var items []protoItem
+
+	for _, proto := range protoOrder {
+		list := tpls[proto]
+
+		for idx, tpl := range list {
+			tree, ok := explodeWire([]byte(tpl))
+			if !ok {
+				panic("bad template " + proto)
+			}
+
+			prefix := make([][]byte, 0, idx)
+			for _, p := range list[:idx] {
+				prefix = append(prefix, []byte(p))
+			}
+
+			muts := closure(tree)
+			muts = append([]Mut{{Path: "", Name: "seed", Tree: tree}}, muts...)
+
+			for mi, m := range muts {
+				// quick tier: the prefix-state variants are sampled, the fresh-thread variant always runs
+				wire := render(m.Tree)
+
+				all := []ProtoCase{{Proto: proto, Index: idx, Path: m.Path, Mut: m.Name, Conn: true},
+					{Proto: proto, Index: idx, Path: m.Path, Mut: m.Name, Conn: false},
+					{Proto: proto, Index: idx, Path: m.Path, Mut: m.Name, Conn: true, Second: true}}
+
+				variants := all
+				if r.tier != "thorough" && m.Name != "seed" {
+					// quick tier: every mutation in one of the three settings (rotating), every third one skipped
+					// (rotating with the seed, so that three seeds cover the closure)
+					if (mi+int(r.seed))%3 == 2 {
+						continue
+					}
+
+					variants = all[mi%3 : mi%3+1]
+				}
+
+				for _, pc := range variants {
+					it := protoItem{pc: pc}
+
+					if pc.Second {
+						it.seq = append(it.seq, prefix...)
+						it.seq = append(it.seq, wire, wire)
+					} else {
+						it.seq = append(it.seq, wire)
+					}
+
+					items = append(items, it)
+				}
+			}
+		}
+	}
+
+	return items
+}
+
+func (r *runner) emitProto(kind string, it protoItem, res batchResult, alone bool) {
+	o := Outcome{Class: "ok"}
+	rec := &hx.Record{Kind: kind, Case: Case{Seed: "proto." + it.pc.Proto, EP: "HandleInbound", Gen: "proto", Proto: &it.pc}}
+
+	if res.timeout {
+		o = Outcome{Class: "timeout"}
+	} else if res.crashed {
+		msg, site := workerPanicSite(res.stderr)
+		o = Outcome{Class: "panic", Err: msg, Site: site}
+
+		if !seenSite[site] || os.Getenv("VERIF_STACK") != "" {
+			seenSite[site] = true
+			st := res.stderr
+			if i := strings.Index(st, msg); i >= 0 {
+				st = st[i:]
+			}
+
+			if len(st) > 3000 {
+				st = st[:3000]
+			}
+
+			fmt.Fprintf(os.Stderr, "c03: first worker panic at %s:\n%s\n", site, st)
+		}
+	}
+
+	rec.Observed = o
+	rec.Class = fmt.Sprintf("E9|%s|%d|%s|%s|%v|%v|%s", it.pc.Proto, it.pc.Index, it.pc.Path, it.pc.Mut, it.pc.Conn, it.pc.Second, o.Class)
+	rec.Dist = []string{"layer:E9", "ep:HandleInbound:" + it.pc.Proto, "outcome:" + o.Class, "gen:proto"}
+
+	if o.Class != "ok" {
+		r.fails++
+		rec.Oracle = "fail"
+		rec.Sig = o.Class + "@" + o.Site
+		rec.Detail = fmt.Sprintf("%s in a handler goroutine of the agent: protocol %s, template %d, %s %s (conn=%v, delivered twice=%v): %s",
+			o.Class, it.pc.Proto, it.pc.Index, it.pc.Path, it.pc.Mut, it.pc.Conn, it.pc.Second, o.Err)
+
+		if !alone {
+			rec.Detail += " [attributed inside a batch]"
+		}
+	}
+
+	// message pickup pre-checks are modelled (E8): the seed / mutated status-request and batch-pickup
+	if it.pc.Proto == "messagepickup" && it.pc.Index <= 1 && !it.pc.Second {
+		rec.Coq = r.coqPickup(it, o)
+	}
+
+	r.n++
+	r.tr.Put(rec)
+}
+
+// coqPickup gives the model the shape of a status-request / batch-pickup (an inbox with two messages exists for the
+// connected sender; none for an unattributed one).
+func (r *runner) coqPickup(it protoItem, o Outcome) string {
+	var m map[string]interface{}
+	if json.Unmarshal(it.seq[len(it.seq)-1], &m) != nil {
+		return ""
+	}
+
+	obs := "OOk"
+	if o.Class == "panic" {
+		obs = "OPanic"
+	} else if o.Class == "timeout" {
+		obs = "OTimeout"
+	}
+
+	typ, _ := m["@type"].(string) //nolint:errcheck
+
+	switch typ {
+	case messagepickup.StatusRequestMsgType:
+		_, isObj := m["~thread"].(map[string]interface{})
+
+		return mkCase(fmt.Sprintf("(I8s %s %s)", coqBool(it.pc.Conn), coqBool(isObj)), obs)
+	case messagepickup.BatchPickupMsgType:
+		held := 0
+		if it.pc.Conn {
+			held = 2
+		}
+
+		f, isNum := m["batch_size"].(float64)
+		if !isNum || f != float64(int64(f)) || f > 1e9 || f < -1e9 {
+			return ""
+		}
+
+		return mkCase(fmt.Sprintf("(I8b %d%%nat (%d)%%Z)", held, int64(f)), obs)
+	}
+
+	return ""
+}
+
+func (r *runner) runProtocols() {
+	items := r.protoItems()
+
+	const batch = 300
+
+	var chunks [][]protoItem
+
+	for i := 0; i < len(items); i += batch {
+		j := i + batch
+		if j > len(items) {
+			j = len(items)
+		}
+
+		chunks = append(chunks, items[i:j])
+	}
+
+	// first pass: the chunks in parallel workers; a chunk whose worker died is split afterwards (sequentially)
+	results := make([]batchResult, len(chunks))
+	sem := make(chan struct{}, 5) //nolint:gomnd
+	done := make(chan int, len(chunks))
+
+	for i := range chunks {
+		go func(i int) {
+			sem <- struct{}{}
+			results[i] = runBatch(chunks[i], 300) //nolint:gomnd
+			<-sem
+			done <- i
+		}(i)
+	}
+
+	for range chunks {
+		<-done
+	}
+
+	for i, ch := range chunks {
+		if !results[i].crashed && !results[i].timeout {
+			for _, it := range ch {
+				r.emitProto("proto", it, results[i], false)
+			}
+
+			continue
+		}
+
+		r.runProtoRange(ch)
+	}
+}
+
+// runProtoRange runs a batch in one worker; when the worker dies the batch is split to attribute the crash.
+func (r *runner) runProtoRange(items []protoItem) {
+	t0 := time.Now()
+	res := runBatch(items, 300)
+
+	if os.Getenv("C03_TIMING") != "" {
+		fmt.Fprintf(os.Stderr, "c03: batch of %d (%s/%d..) took %v\n", len(items), items[0].pc.Proto, items[0].pc.Index, time.Since(t0))
+	}
+	if !res.crashed && !res.timeout {
+		for _, it := range items {
+			r.emitProto("proto", it, res, false)
+		}
+
+		return
+	}
+
+	if len(items) == 1 {
+		// confirm alone once more (a loaded machine must not produce a false alarm)
+		res2 := runBatch(items, 800)
+		if !res2.crashed && !res2.timeout {
+			r.emitProto("proto", items[0], res2, true)
+			return
+		}
+
+		r.emitProto("proto", items[0], res2, true)
+
+		return
+	}
+
+	mid := len(items) / 2
+	r.runProtoRange(items[:mid])
+	r.runProtoRange(items[mid:])
+}
+
+func (r *runner) replayProto(c Case, kind string) bool {
+	for _, it := range r.protoItems() {
+		if it.pc == *c.Proto {
+			res := runBatch([]protoItem{it}, 800)
+			if res.crashed || res.timeout {
+				res = runBatch([]protoItem{it}, 800)
+			}
+
+			r.emitProto(kind+":proto", it, res, true)
+
+			return true
+		}
+	}
+
+	return false
+}
